@@ -205,8 +205,15 @@ def r01_1(chk, sg, cr):
         return r01_1_ordered(chk, sg, cr, ev, q, coords, n)
     rep = _repeat_layout(ev, n) if len(bufs) == 1 else None
     chk.need(len(bufs) == 2 or rep is not None, f"{q}: expected two output buffers, found {list(bufs)}")
+    # len(self) is len(self.symmetry_operations) (SpaceGroup.__len__), also through a local bound to that list
+    ops_attr = P.atom(("attr", P.name("self"), "symmetry_operations"))
+    nops_alt = [nops, P.atom(("call", P.name("len"), (ops_attr,)))] + \
+        [P.atom(("call", P.name("len"), (P.atom(k),))) for k, v in ev.defs.items() if v.key() == ops_attr.key()]
+    len_fn = sg.funcs.get("SpaceGroup.__len__")
+    len_ok = len_fn is not None and "self.symmetry_operations" in ast.unparse(len_fn)
     for name, (obj, size) in bufs.items():
-        chk.ob("R01.1", SG, q, f"buffer '{name}' holds nsites * len(group) entries", size == n * nops, fingerprint=f"size:{name}",
+        chk.ob("R01.1", SG, q, f"buffer '{name}' holds nsites * len(group) entries",
+               size == n * nops or (len_ok and any(size == n * alt for alt in nops_alt)), fingerprint=f"size:{name}",
                expected=str(n * nops), found=str(size))
     stores = [e for e in ev.events if e.kind == "store" and e.target.as_atom()[0] == "sub"]
     first = [e for e in stores if not e.loops]
@@ -220,7 +227,7 @@ def r01_1(chk, sg, cr):
         t = e.target.as_atom()
         s = t[2][0].as_atom()
         name = t[1].as_atom()[1]
-        ident_ok[name] = bool(s and s[0] == "slice" and s[1] == P.const(0) and s[2] == n) and \
+        ident_ok[name] = bool(s and s[0] == "slice" and (s[1] == P.const(0) or s[1].key() == "None") and s[2] == n) and \
             (e.value.key() == coords.key() or e.value == P.const(M.IDENTITY))
     if rep is not None:
         ident_ok[rep[0]] = rep[1] == P.const(M.IDENTITY)
